@@ -146,13 +146,506 @@ Proof.
   assert (Hxs : status (getrec s x) <> INITIALIZED) by (apply (i_init g s I); auto).
   unfold handle_report_gen; destruct o as [v|]; [destruct v|]; cbn [oeqb state_eqb].
   all: try (solve [keep_tac D I]).
-  - (* RUNNING *) admit.
-  - (* FINISHED *) admit.
-  - (* FAILED *) admit.
-  - (* HWFAILURE *) admit.
-  - (* TIMEDOUT *) admit.
-  - (* UNKNOWN *) admit.
-  - (* CANCELLED *) admit.
-Admitted.
+  - (* RUNNING *)
+    eapply disp_keep; [exact D|intros v E; inversion E; reflexivity| | | |].
+    + apply Inv_set_status; [discriminate|exact I].
+    + apply same_sets_set_status.
+    + reflexivity.
+    + intros y. apply lastjob_set_status.
+  - (* FINISHED *)
+    eapply (disp_remove x _ FINISHED); [exact D|reflexivity|reflexivity| | | | | | | |].
+    + apply Inv_finish; [apply Inv_set_status; [discriminate|exact I]|exact Hx].
+    + reflexivity.
+    + reflexivity.
+    + intros y. change (lastjob (rec_set_status x FINISHED s) y = lastjob s y). apply lastjob_set_status.
+    + intros y. unfold inprog_remove, completed_add, rec_set_status; sp. rewrite In_srem. tauto.
+    + cbn [state_eqb]. intros y. unfold inprog_remove, completed_add, rec_set_status; sp. rewrite In_sadd. tauto.
+    + intros y. unfold tracked, inprog_remove, completed_add, rec_set_status; sp. rewrite In_srem, In_sadd.
+      intuition (subst; auto).
+    + intros y Hy. tauto.
+  - (* FAILED *)
+    eapply (disp_remove x _ FAILED); [exact D|reflexivity|reflexivity| | | | | | | |].
+    + apply Inv_set_status; [discriminate|]. apply Inv_inprog_remove. exact I.
+    + reflexivity.
+    + reflexivity.
+    + intros y. rewrite lastjob_set_status. reflexivity.
+    + intros y. unfold inprog_remove, rec_set_status; sp. rewrite In_srem. tauto.
+    + cbn [state_eqb]. intros y. reflexivity.
+    + intros y. unfold tracked, inprog_remove, rec_set_status; sp. rewrite In_srem. tauto.
+    + intros y. rewrite In_set_union. intros Hy. assert (In y (bfs_subtree g x) \/ In y cl \/ In y ca) as [H1|H1] by tauto; [right; right; split; auto|tauto].
+  - (* HWFAILURE *)
+    eapply (disp_remove x _ HWFAILURE); [exact D|reflexivity|reflexivity| | | | | | | |].
+    + apply Inv_ready_push; auto; [apply Inv_inprog_remove; exact I|].
+      unfold inprog_remove; sp. rewrite In_srem. tauto.
+    + reflexivity.
+    + reflexivity.
+    + intros y. reflexivity.
+    + intros y. unfold ready_push, inprog_remove; sp. rewrite In_srem. tauto.
+    + cbn [state_eqb]. intros y. reflexivity.
+    + intros y. unfold tracked, ready_push, inprog_remove; sp. rewrite In_srem, in_app_iff. cbn [In].
+      intuition (subst; auto).
+    + intros y Hy. tauto.
+  - (* TIMEDOUT *)
+    destruct (has_restart (attr g x) && negb (canceled s)) eqn:Hr.
+    + apply andb_true_iff in Hr. destruct Hr as [Hr Hcan]. apply negb_true_iff in Hcan.
+      unfold mark_restart_gen.
+      destruct ((rlimit (attr g x) =? 0) || (restarts (getrec (rec_set_status x TIMEDOUT s) x) <? rlimit (attr g x))).
+      * (* restart submitted *)
+        set (s1 := rec_inc_restarts x (rec_set_status x TIMEDOUT s)).
+        assert (I1 : Inv g s1).
+        { apply Inv_inc_restarts. apply Inv_set_status; [discriminate|exact I]. }
+        assert (LJ1 : forall y, lastjob s1 y = lastjob s y).
+        { intros y. unfold s1. rewrite lastjob_inc_restarts. apply lastjob_set_status. }
+        assert (Hxr' : ~ In x (map fst rest)) by (inversion ND; assumption).
+        assert (Pre : exec_pre c g p L0 false (tpend rest) (pfin rest) x true s1).
+        { split; [exact I1|]. split; [exact Cl|]. split; [exact Hxl|].
+          split; [exact Hxc|]. split; [exact Hxr|]. split; [exact Hxf|]. split; [exact Hxk|].
+          split; [exact Hxp|]. split; [split; [exact Hx|reflexivity]|].
+          split. { intros Ht. specialize (T Ht). change (inprog s1) with (inprog s).
+                   rewrite (length_srem_in x (inprog s)); [exact T|apply (i_nd_inprog g s I)|exact Hx]. }
+          split; [exact Hcan|].
+          split. { intros H. apply Hxr'. apply tpend_fst. exact H. }
+          split. { intros H. apply Hxr'. apply pfin_fst. exact H. }
+          split.
+          - eapply JL_ext; [|eapply JL_frame; [| | | | |exact Jl]]; auto; try reflexivity.
+            intros y _. cbn. rewrite tpend_cons. split; [intros [[H _]|H]; auto|].
+            intros [H|H]; auto. left. split; auto. exists TIMEDOUT. auto.
+          - eapply JS_ext; [|eapply JS_frame; [| |exact Js]]; auto; try reflexivity.
+            intros y. rewrite pfin_cons. split; auto. intros [(_ & E)|H]; auto. discriminate. }
+        pose proof (execute_record_spec c g p L0 W false (tpend rest) (pfin rest) x true s1 Hdry Pre) as ES.
+        cbv zeta in ES. destruct ES as (G1 & G2 & G3 & G4 & G5 & G6 & G7 & G8).
+        change (inprog s1) with (inprog s) in *.
+        assert (TR : forall y, tracked (execute_record_gen c g x true s1) y -> tracked s y).
+        { intros y Hy. destruct (G7 y Hy) as [->|H]; [right; left; exact Hx|exact H]. }
+        split; [exact G1|].
+        split. { intros Ht. specialize (T Ht). etransitivity; [exact G6|].
+                 rewrite (length_srem_in x (inprog s)); [exact T|apply (i_nd_inprog g s I)|exact Hx]. }
+        split; [exact G2|]. split; [exact G3|]. split; [inversion ND; assumption|].
+        split. { intros y Hy. apply G8; [intros ->; contradiction|]. apply RI. right. exact Hy. }
+        intros y Hy. eapply out_mono; [exact TR|]. apply AC. exact Hy.
+      * (* restart budget exhausted *)
+        eapply (disp_remove x _ TIMEDOUT); [exact D|reflexivity|reflexivity| | | | | | | |].
+        -- apply Inv_inprog_remove. apply Inv_set_status; [discriminate|exact I].
+        -- reflexivity.
+        -- reflexivity.
+        -- intros y. change (lastjob (rec_set_status x TIMEDOUT s) y = lastjob s y). apply lastjob_set_status.
+        -- intros y. unfold inprog_remove, rec_set_status; sp. rewrite In_srem. tauto.
+        -- cbn [state_eqb]. intros y. reflexivity.
+        -- intros y. unfold tracked, inprog_remove, rec_set_status; sp. rewrite In_srem. tauto.
+        -- intros y. rewrite In_set_union.
+           intros Hy. assert (In y (bfs_subtree g x) \/ In y cl \/ In y ca) as [H1|H1] by tauto; [right; right; split; auto|tauto].
+    + (* no restart: the step itself fails *)
+      eapply (disp_remove x _ TIMEDOUT); [exact D|reflexivity|reflexivity| | | | | | | |].
+      * apply Inv_failed_add; auto.
+        -- apply Inv_inprog_remove. apply Inv_set_status; [discriminate|exact I].
+        -- unfold inprog_remove, rec_set_status; sp. rewrite In_srem. tauto.
+        -- change (status (getrec (rec_set_status x TIMEDOUT s) x) <> INITIALIZED).
+           rewrite getrec_set_status_eq by (rewrite (i_len_recs g s I); exact Hxl). cbn. discriminate.
+      * reflexivity.
+      * reflexivity.
+      * intros y. change (lastjob (rec_set_status x TIMEDOUT s) y = lastjob s y). apply lastjob_set_status.
+      * intros y. unfold failed_add, inprog_remove, rec_set_status; sp. rewrite In_srem. tauto.
+      * cbn [state_eqb]. intros y. reflexivity.
+      * intros y. unfold tracked, failed_add, inprog_remove, rec_set_status; sp. rewrite In_srem. tauto.
+      * intros y. rewrite In_srem, In_set_union.
+        intros Hy. assert (In y (bfs_subtree g x) \/ In y cl \/ In y ca) as [H1|H1] by tauto; [right; right; split; auto|tauto].
+  - (* UNKNOWN *)
+    eapply (disp_remove x _ UNKNOWN); [exact D|reflexivity|reflexivity| | | | | | | |].
+    + apply Inv_inprog_remove. apply Inv_set_status; [discriminate|exact I].
+    + reflexivity.
+    + reflexivity.
+    + intros y. change (lastjob (rec_set_status x UNKNOWN s) y = lastjob s y). apply lastjob_set_status.
+    + intros y. unfold inprog_remove, rec_set_status; sp. rewrite In_srem. tauto.
+    + cbn [state_eqb]. intros y. reflexivity.
+    + intros y. unfold tracked, inprog_remove, rec_set_status; sp. rewrite In_srem. tauto.
+    + intros y. rewrite In_set_union. intros Hy. assert (In y (bfs_subtree g x) \/ In y cl \/ In y ca) as [H1|H1] by tauto; [right; right; split; auto|tauto].
+  - (* CANCELLED *)
+    eapply (disp_remove x _ CANCELLED); [exact D|reflexivity|reflexivity| | | | | | | |].
+    + apply Inv_set_status; [discriminate|]. apply Inv_inprog_remove. exact I.
+    + reflexivity.
+    + reflexivity.
+    + intros y. rewrite lastjob_set_status. reflexivity.
+    + intros y. unfold inprog_remove, rec_set_status; sp. rewrite In_srem. tauto.
+    + cbn [state_eqb]. intros y. reflexivity.
+    + intros y. unfold tracked, inprog_remove, rec_set_status; sp. rewrite In_srem. tauto.
+    + intros y. rewrite In_set_union. intros Hy. assert (In y (bfs_subtree g x) \/ In y cl \/ In y ca) as [H1|H1] by tauto; [right; right; split; auto|tauto].
+Qed.
 
 End Dispatch.
+
+(** * The whole dispatch: fold over the reports, then the two sweeps *)
+Section Dispatch2.
+Variables (c : cfg) (g : graph) (p : pin) (L0 : base).
+Notation ledS := (led c g p L0).
+Notation cleanS := (clean c g p L0).
+Hypothesis W : WF g.
+Hypothesis Hdry : dry c = false.
+
+Lemma fold_reports_spec : forall reps s cl ca, disp_inv c g p L0 reps s cl ca ->
+  let '(s', cl', ca') := fold_left (handle_report_gen c g) reps (s, cl, ca) in disp_inv c g p L0 [] s' cl' ca'.
+Proof.
+  induction reps as [|r reps IH]; intros s cl ca D; cbn [fold_left]; [exact D|].
+  pose proof (handle_report_spec c g p L0 W Hdry r reps s cl ca D) as H.
+  destruct (handle_report_gen c g (s, cl, ca) r) as [[s1 cl1] ca1]. apply IH; exact H.
+Qed.
+
+Lemma dispatch_spec reps s :
+  Inv g s -> Thr c s -> cleanS s -> J false (tpend reps) (pfin reps) s (ledS s) ->
+  NoDup (map fst reps) -> (forall y, In y (map fst reps) -> In y (inprog s)) ->
+  let s' := dispatch_gen c g reps s in
+  Inv g s' /\ Thr c s' /\ cleanS s' /\ J false none none s' (ledS s').
+Proof.
+  intros I T Cl Jh ND RI. unfold dispatch_gen.
+  assert (D0 : disp_inv c g p L0 reps s [] []).
+  { repeat (split; [assumption|]). intros y [[]|[]]. }
+  pose proof (fold_reports_spec reps s [] [] D0) as FS.
+  destruct (fold_left (handle_report_gen c g) reps (s, [], [])) as [[s1 cl] ca].
+  destruct FS as (I1 & T1 & Cl1 & [Jl Js] & _ & _ & AC).
+  pose proof (mark_failed_list_frame cl s1) as (F1 & F2 & F3 & F4 & F5 & F6 & F7 & F8).
+  set (s2 := mark_failed_list cl s1) in *.
+  pose proof (mark_cancelled_list_frame ca s2) as (G1 & G2 & G3 & G4 & G5 & G6 & G7 & G8).
+  set (s3 := mark_cancelled_list ca s2) in *.
+  assert (I2 : Inv g s2) by (apply Inv_mark_failed_list; [exact I1|intros y Hy; apply AC; auto]).
+  assert (I3 : Inv g s3).
+  { apply Inv_mark_cancelled_list; [exact I2|]. intros y Hy. rewrite F1, F2, F3. apply AC. auto. }
+  assert (EL : ledS s3 = ledS s1) by (apply led_frame; congruence).
+  split; [exact I3|]. split; [unfold Thr; rewrite G2, F2; exact T1|].
+  split; [apply (clean_frame c g p L0 s1 s3); [congruence|exact Cl1]|].
+  rewrite EL. split.
+  - eapply JL_ext; [|eapply JL_frame; [| | | | |exact Jl]]; auto.
+    + intros y _. split; [intros (v & [] & _)|intros []].
+    + intros y. rewrite G2, F2. tauto.
+    + congruence.
+    + intros y _. rewrite G8, F8. reflexivity.
+  - eapply JS_ext; [|eapply JS_frame; [| |exact Js]]; auto.
+    + intros y. split; [intros []|intros []].
+    + intros y. rewrite G1, F1. tauto.
+Qed.
+
+End Dispatch2.
+
+(** * Delivery of the reports to the ledger at the ECheck event *)
+Lemma deliver_live m r : live (deliver m r) =
+  match r with (x, Some v) => if terminal v then drop_live x (live m) else live m | _ => live m end.
+Proof. destruct r as [x [v|]]; [destruct v|]; reflexivity. Qed.
+Lemma deliver_succ m r : succ (deliver m r) =
+  match r with (x, Some v) => if state_eqb v FINISHED then sadd x (succ m) else succ m | _ => succ m end.
+Proof. destruct r as [x [v|]]; [destruct v|]; reflexivity. Qed.
+Lemma deliver_cseen m r : cseen (deliver m r) = cseen m.
+Proof. destruct r as [x [v|]]; [destruct v|]; reflexivity. Qed.
+
+Lemma In_drop_live y j x l : In (y, j) (drop_live x l) <-> In (y, j) l /\ y <> x.
+Proof.
+  unfold drop_live. rewrite filter_In. cbn [fst]. rewrite negb_true_iff, Nat.eqb_neq. tauto.
+Qed.
+
+Lemma NoDup_map_filter {A B} (f : A -> B) (h : A -> bool) l : NoDup (map f l) -> NoDup (map f (filter h l)).
+Proof.
+  induction l as [|a l IH]; cbn; intros N; [constructor|]. inversion N; subst.
+  destruct (h a); cbn; auto. constructor; auto.
+  intros Hi. apply H1. apply in_map_iff in Hi. destruct Hi as (b & E & Hb). apply filter_In in Hb.
+  apply in_map_iff. exists b. tauto.
+Qed.
+
+Lemma deliver_fold reps : forall m,
+  (forall y j, In (y, j) (live (fold_left deliver reps m)) <-> In (y, j) (live m) /\ ~ tpend reps y) /\
+  (forall y, In y (succ (fold_left deliver reps m)) <-> In y (succ m) \/ pfin reps y) /\
+  cseen (fold_left deliver reps m) = cseen m /\
+  (NoDup (map fst (live m)) -> NoDup (map fst (live (fold_left deliver reps m)))).
+Proof.
+  induction reps as [|r reps IH]; intros m; cbn [fold_left].
+  - split; [|split; [|split]]; auto.
+    + intros y j. split; [intros H; split; auto; intros (v & [] & _)|tauto].
+    + intros y. split; auto. intros [H|[]]; auto.
+  - destruct (IH (deliver m r)) as (A1 & A2 & A3 & A4). destruct r as [x o].
+    split; [|split; [|split]].
+    + intros y j. rewrite A1, deliver_live, tpend_cons. destruct o as [v|].
+      * destruct (terminal v) eqn:Tv.
+        -- rewrite In_drop_live. split.
+           ++ intros ((H1 & H2) & H3). split; auto. intros [(E & _)|H]; auto.
+           ++ intros (H1 & H2). split; [split; auto|]; intros H; apply H2; auto.
+              subst y. left. split; auto. exists v. auto.
+        -- split; intros (H1 & H2); split; auto.
+           intros [(_ & w & E & Tw)|H]; auto. inversion E; subst. congruence.
+      * split; intros (H1 & H2); split; auto. intros [(_ & w & E & _)|H]; auto. discriminate.
+    + intros y. rewrite A2, deliver_succ, pfin_cons. destruct o as [v|].
+      * destruct (state_eqb v FINISHED) eqn:Ev.
+        -- assert (v = FINISHED) by (destruct v; try discriminate; reflexivity). subst v.
+           rewrite In_sadd. tauto.
+        -- split; [tauto|]. intros [H|[(_ & E)|H]]; auto. inversion E; subst. discriminate.
+      * split; [tauto|]. intros [H|[(_ & E)|H]]; auto. discriminate.
+    + rewrite A3. apply deliver_cseen.
+    + intros N. apply A4. rewrite deliver_live. destruct o as [v|]; auto.
+      destruct (terminal v); auto. apply NoDup_map_filter. exact N.
+Qed.
+
+Lemma same_jobs_J s L : NoDup (inprog s) -> JL none s L ->
+  same_jobs (map (lastjob s) (inprog s)) (live L) = true.
+Proof.
+  intros N [A B C]. unfold same_jobs. apply andb_true_iff. split.
+  - apply seteqb_spec. intros j. rewrite !in_map_iff. split.
+    + intros (x & E & Hx). exists (x, j). split; auto. apply A. unfold none. auto.
+    + intros ([x j'] & E & Hi). cbn in E. subst j'. apply A in Hi. exists x. destruct Hi as (H1 & H2 & _). auto.
+  - apply Nat.eqb_eq. rewrite map_length. rewrite <- (map_length fst (live L)).
+    apply Nat.le_antisymm; apply NoDup_incl_length_le; auto.
+    + intros x Hx. apply in_map_iff. exists (x, lastjob s x). split; auto. apply A. unfold none. auto.
+    + intros x Hx. apply in_map_iff in Hx. destruct Hx as ([x' j] & E & Hi). cbn in E. subst x'.
+      apply A in Hi. tauto.
+Qed.
+
+(** valid poll input: when the query answers OK, the reports mention only
+    in-progress steps, each at most once (the adapters key the dict by the queried ids) *)
+Definition valid_pin (s : st) (p : pin) : bool :=
+  negb (qcode_eqb (qcode p) QOK) ||
+  (forallb (fun r => mem (fst r) (inprog s)) (reports p) && nodupb (map fst (reports p))).
+
+Lemma valid_pin_spec s p : valid_pin s p = true -> qcode p = QOK ->
+  NoDup (map fst (reports p)) /\ (forall y, In y (map fst (reports p)) -> In y (inprog s)).
+Proof.
+  unfold valid_pin. intros H Q. rewrite Q in H. cbn in H. apply andb_true_iff in H. destruct H as [H1 H2].
+  split; [apply nodupb_NoDup; exact H2|]. intros y Hy. apply in_map_iff in Hy. destruct Hy as (r & E & Hr).
+  rewrite forallb_forall in H1. specialize (H1 r Hr). rewrite E in H1. apply mem_In. exact H1.
+Qed.
+
+Lemma state_eqb_eq a b : state_eqb a b = true -> a = b.
+Proof. destruct a, b; cbn; intros H; try discriminate; reflexivity. Qed.
+
+Lemma Inv_fields g s s' :
+  completed s' = completed s -> inprog s' = inprog s -> ready s' = ready s -> failed s' = failed s ->
+  cancelled s' = cancelled s -> deps s' = deps s -> recs s' = recs s -> Inv g s -> Inv g s'.
+Proof.
+  intros E1 E2 E3 E4 E5 E6 E7 I. dI I.
+  constructor; unfold getrec, getdeps in *; rewrite ?E1, ?E2, ?E3, ?E4, ?E5, ?E6, ?E7; auto.
+Qed.
+
+(** * Staging loop, launch loop, cancel_study, and one whole poll *)
+Section PollSpec.
+Variables (c : cfg) (g : graph) (p : pin) (L0 : base).
+Notation ledS := (led c g p L0).
+Notation cleanS := (clean c g p L0).
+Hypothesis W : WF g.
+
+Definition qinv (d : bool) (s : st) : Prop := Inv g s /\ cleanS s /\ J d none none s (ledS s).
+
+Lemma qinv_frame d s s' :
+  Inv g s' -> evs s' = evs s -> inprog s' = inprog s -> completed s' = completed s ->
+  canceled s' = canceled s -> (forall y, lastjob s' y = lastjob s y) -> qinv d s -> qinv d s'.
+Proof.
+  intros I' E1 E2 E3 E4 E5 (I & Cl & [Jl Js]).
+  split; [exact I'|]. split; [apply (clean_frame c g p L0 s s' E1); exact Cl|].
+  rewrite (led_frame c g p L0 s s' E1). split.
+  - eapply JL_frame; [| | | | |exact Jl]; auto.
+    + intros y. rewrite E2. tauto.
+  - eapply JS_frame; [| |exact Js]; auto. intros y. rewrite E3. tauto.
+Qed.
+
+Lemma stage_node_spec d s x : x < length g -> qinv d s ->
+  let s' := stage_node_gen g s x in
+  qinv d s' /\ inprog s' = inprog s /\ completed s' = completed s /\ canceled s' = canceled s.
+Proof.
+  intros Hx Q. pose proof Q as (I & Cl & Jh). unfold stage_node_gen.
+  destruct (mem x (completed s)) eqn:Hc; [split; [exact Q|repeat split]|].
+  destruct (state_eqb (status (getrec s x)) INITIALIZED) eqn:Hs; [|split; [exact Q|repeat split]].
+  apply state_eqb_eq in Hs. apply mem_false in Hc.
+  set (s1 := deps_prune x s).
+  assert (I1 : Inv g s1) by (apply Inv_deps_prune; exact I).
+  assert (Q1 : qinv d s1) by (apply (qinv_frame d s s1); auto).
+  destruct (is_nil (getdeps s1 x)) eqn:Hn; [|split; [exact Q1|repeat split]].
+  destruct (mem x (ready s1)) eqn:Hr; cbn [negb]; [split; [exact Q1|repeat split]|].
+  apply mem_false in Hr.
+  assert (Hnot : ~ (In x (inprog s) \/ In x (failed s) \/ In x (cancelled s))).
+  { intros H. apply (i_init g s I x H). exact Hs. }
+  split; [|repeat split; auto].
+  apply (qinv_frame d s1); auto.
+  apply Inv_ready_push; auto; try (change (~ In x (inprog s))); try (change (~ In x (failed s)));
+    try (change (~ In x (cancelled s))); try tauto.
+  intros q Hq. change (In q (completed s)).
+  destruct (in_dec Nat.eq_dec q (completed s)) as [Hi|Hi]; auto. exfalso.
+  destruct (i_deps g s I x q Hx Hq) as [Hd|Hd]; [|contradiction].
+  assert (Hf : In q (getdeps s1 x)).
+  { unfold s1. rewrite getdeps_prune_eq by (rewrite (i_len_deps g s I); exact Hx).
+    apply filter_In. split; auto. apply negb_true_iff, mem_false. exact Hi. }
+  destruct (getdeps s1 x); [destruct Hf|discriminate].
+Qed.
+
+Lemma stage_fold_spec d l : (forall x, In x l -> x < length g) -> forall s, qinv d s ->
+  let s' := fold_left (stage_node_gen g) l s in
+  qinv d s' /\ inprog s' = inprog s /\ completed s' = completed s /\ canceled s' = canceled s.
+Proof.
+  induction l as [|x l IH]; intros Hl s Q; cbn [fold_left]; [split; [exact Q|repeat split]|].
+  destruct (stage_node_spec d s x (Hl x (or_introl eq_refl)) Q) as (Q1 & E1 & E2 & E3).
+  destruct (IH (fun y Hy => Hl y (or_intror Hy)) _ Q1) as (Q2 & F1 & F2 & F3).
+  split; [exact Q2|]. repeat split; congruence.
+Qed.
+
+Lemma launch_body_spec d s : dry c = d -> qinv d s ->
+  (throttle c > 0 -> S (length (inprog s)) <= throttle c) ->
+  let s' := launch_body_gen c g s in
+  qinv d s' /\ length (inprog s') <= S (length (inprog s)).
+Proof.
+  intros Hd Q TB. pose proof Q as (I & Cl & [Jl Js]). unfold launch_body_gen.
+  destruct (ready s) as [|x rest] eqn:Er; [split; [exact Q|lia]|].
+  set (s1 := set_ready s rest).
+  assert (I1 : Inv g s1) by (eapply Inv_pop; eauto).
+  assert (Q1 : qinv d s1) by (apply (qinv_frame d s s1); auto).
+  assert (Hxr : In x (ready s)) by (rewrite Er; left; reflexivity).
+  assert (Hx : x < length g) by (apply (i_bound g s I); auto).
+  assert (Hxc : ~ In x (completed s)) by (intros H; exact (i_dj_cr g s I x H Hxr)).
+  assert (Hxi : ~ In x (inprog s)) by (intros H; exact (i_dj_ir g s I x H Hxr)).
+  assert (Hxf : ~ In x (failed s) /\ ~ In x (cancelled s)).
+  { split; intros Hf; destruct (i_dj_fc g s I x); auto; tauto. }
+  assert (Hxn : ~ In x rest).
+  { pose proof (i_nd_ready g s I) as N. rewrite Er in N. inversion N; assumption. }
+  change (canceled s1) with (canceled s).
+  destruct (canceled s) eqn:Hcan.
+  - (* popped after a cancel request: marked cancelled, never submitted *)
+    split; [|cbn; lia].
+    apply (qinv_frame d s1); auto.
+    + apply Inv_cancelled_add; auto.
+      * apply Inv_set_status; [discriminate|exact I1].
+      * change (status (getrec (rec_set_status x CANCELLED s1) x) <> INITIALIZED).
+        rewrite getrec_set_status_eq by (rewrite (i_len_recs g s1 I1); exact Hx). cbn. discriminate.
+    + intros y. change (lastjob (rec_set_status x CANCELLED s1) y = lastjob s1 y). apply lastjob_set_status.
+  - (* launched *)
+    destruct Q1 as (_ & Cl1 & [Jl1 Js1]).
+    assert (Pre : exec_pre c g p L0 d none none x false s1).
+    { split; [exact I1|]. split; [exact Cl1|]. split; [exact Hx|].
+      split; [exact Hxc|]. split; [exact Hxn|]. split; [apply Hxf|]. split; [apply Hxf|].
+      split; [apply (i_anc g s I); auto|]. split; [exact Hxi|].
+      split. { intros Ht. change (inprog s1) with (inprog s). rewrite srem_notin by exact Hxi. auto. }
+      split; [exact Hcan|]. split; [intros []|]. split; [intros []|].
+      split; [|exact Js1].
+      eapply JL_ext; [|exact Jl1]. intros y Hy. change (In y (inprog s)) in Hy. unfold none.
+      split; [tauto|]. intros [->|[]]. contradiction. }
+    pose proof (execute_record_spec c g p L0 W d none none x false s1 Hd Pre) as ES.
+    cbv zeta in ES. destruct ES as (G1 & G2 & G3 & G4 & G5 & G6 & G7 & G8).
+    split; [split; [exact G1|split; [exact G2|exact G3]]|].
+    change (inprog s1) with (inprog s) in G6. rewrite srem_notin in G6 by exact Hxi. exact G6.
+Qed.
+
+Lemma launch_iter_spec d n : forall s, dry c = d -> qinv d s ->
+  (throttle c > 0 -> length (inprog s) + n <= throttle c) ->
+  let s' := Nat.iter n (launch_body_gen c g) s in
+  qinv d s' /\ length (inprog s') <= length (inprog s) + n.
+Proof.
+  induction n as [|n IH]; intros s Hd Q TB.
+  - cbn. split; [exact Q|lia].
+  - change (Nat.iter (S n) (launch_body_gen c g) s) with (launch_body_gen c g (Nat.iter n (launch_body_gen c g) s)).
+    destruct (IH s Hd Q ltac:(intros H; specialize (TB H); lia)) as [Q1 B1].
+    destruct (launch_body_spec d _ Hd Q1 ltac:(intros H; specialize (TB H); lia)) as [Q2 B2].
+    split; [exact Q2|lia].
+Qed.
+
+Lemma cancel_study_spec d s : qinv d s ->
+  qinv d (cancel_study_gen s) /\ inprog (cancel_study_gen s) = inprog s.
+Proof.
+  intros (I & Cl & [Jl Js]). unfold cancel_study_gen. split; [|reflexivity].
+  set (e := ECancel (map (lastjob s) (inprog s))).
+  split; [eapply Inv_fields; [| | | | | | |exact I]; reflexivity|].
+  split.
+  - apply (clean_frame c g p L0 (emit e s)); [reflexivity|]. apply clean_emit. split; [exact Cl|].
+    cbn [evA e]. apply same_jobs_J; [apply (i_nd_inprog g s I)|exact Jl].
+  - rewrite (led_frame c g p L0 (emit e s)) by reflexivity. rewrite led_emit. cbn [step_base e]. split.
+    + destruct Jl as [A B C]. constructor; auto.
+    + eapply JS_frame; [| |exact Js]; [intros y; reflexivity|reflexivity].
+Qed.
+
+Lemma echeck_J s L js : J false none none s L ->
+  J false (tpend (if qcode_eqb (qcode p) QOK then reports p else []))
+          (pfin (if qcode_eqb (qcode p) QOK then reports p else [])) s (step_base c g p L (ECheck js)).
+Proof.
+  intros [Jl Js]. cbn [step_base].
+  assert (NONE : forall L', core_eq L L' -> J false (tpend []) (pfin []) s L').
+  { intros L' (E1 & E2 & E3). split.
+    - eapply JL_ext; [|eapply JL_frame; [| | | | |exact Jl]]; auto.
+      + intros y _. split; [intros []|intros (v & [] & _)].
+      + tauto.
+    - eapply JS_ext; [|eapply JS_frame; [| |exact Js]]; auto.
+      + intros y. split; intros [].
+      + tauto. }
+  destruct (qcode p); cbn [qcode_eqb]; try (apply NONE; repeat split).
+  set (L1 := set_check L (map fst (live L)) (sstage L)).
+  destruct (deliver_fold (reports p) L1) as (A1 & A2 & A3 & A4).
+  set (L2 := fold_left deliver (reports p) L1) in *.
+  change (J false (tpend (reports p)) (pfin (reports p)) s (set_check L2 (lchk L2) (succ L2))).
+  destruct Jl as [B1 B2 B3]. destruct Js as [C1 C2 C3 C4]. split.
+  - constructor.
+    + intros y j. change (In (y, j) (live L2) <-> In y (inprog s) /\ j = lastjob s y /\ ~ tpend (reports p) y).
+      rewrite A1. change (live L1) with (live L). rewrite B1. unfold none. tauto.
+    + apply A4. exact B2.
+    + change (cseen L2 = canceled s). rewrite A3. exact B3.
+  - constructor; try discriminate.
+    + intros _ y Hy. apply A2. left. apply C1; auto.
+    + intros y Hy. apply A2 in Hy. destruct Hy as [Hy|Hy]; auto.
+      destruct (C2 y Hy) as [H|[]]; auto.
+    + intros y Hy. apply A2. auto.
+Qed.
+
+Lemma execute_ready_steps_spec d s : dry c = d -> qinv d s -> Thr c s -> valid_pin s p = true ->
+  qinv d (fst (execute_ready_steps_gen c g p s)) /\ Thr c (fst (execute_ready_steps_gen c g p s)).
+Proof.
+  intros Hd Q T V. unfold execute_ready_steps_gen.
+  assert (TAIL : forall s2, qinv d s2 -> Thr c s2 ->
+     let s3 := fold_left (stage_node_gen g) (seq 0 (length g)) s2 in
+     let s4 := Nat.iter (available_gen c s3) (launch_body_gen c g) s3 in qinv d s4 /\ Thr c s4).
+  { intros s2 Q2 T2. cbv zeta.
+    destruct (stage_fold_spec d (seq 0 (length g)) (fun x Hx => proj1 (In_seq_lt x (length g)) Hx) s2 Q2)
+      as (Q3 & E1 & E2 & E3).
+    set (s3 := fold_left (stage_node_gen g) (seq 0 (length g)) s2) in *.
+    assert (AV : throttle c > 0 -> length (inprog s3) + available_gen c s3 <= throttle c).
+    { intros Ht. unfold available_gen. destruct (throttle c =? 0) eqn:E; [apply Nat.eqb_eq in E; lia|].
+      rewrite E1. specialize (T2 Ht). lia. }
+    destruct (launch_iter_spec d _ s3 Hd Q3 AV) as [Q4 B4]. split; [exact Q4|].
+    intros Ht. specialize (AV Ht). lia. }
+  destruct (dry c) eqn:Hdry; cbn [negb]; subst d.
+  - cbn [qcode_eqb]. change (dispatch_gen c g [] s) with s. cbn [fst]. apply TAIL; assumption.
+  - destruct Q as (I & Cl & Jh).
+    set (e := ECheck (map (lastjob s) (inprog s))).
+    assert (I1 : Inv g (emit e s)) by (eapply Inv_fields; [| | | | | | |exact I]; reflexivity).
+    assert (Cl1 : cleanS (emit e s)).
+    { apply clean_emit. split; [exact Cl|]. cbn [evA e]. apply same_jobs_J; [apply (i_nd_inprog g s I)|apply Jh]. }
+    pose proof (echeck_J s (ledS s) (map (lastjob s) (inprog s)) Jh) as J1.
+    fold e in J1. rewrite <- led_emit in J1.
+    assert (J1' : J false (tpend (if qcode_eqb (qcode p) QOK then reports p else []))
+                    (pfin (if qcode_eqb (qcode p) QOK then reports p else [])) (emit e s) (ledS (emit e s))).
+    { destruct J1 as [Jl Js]. split.
+      - eapply JL_frame; [| | | | |exact Jl]; auto; tauto.
+      - eapply JS_frame; [| |exact Js]; auto; tauto. }
+    clear J1. rename J1' into J1.
+    destruct (qcode p) eqn:Eq; cbn [qcode_eqb] in *.
+    + (* OK: dispatch, stage, launch *)
+      destruct (valid_pin_spec s p V Eq) as [ND RI].
+      pose proof (dispatch_spec c g p L0 W Hdry (reports p) (emit e s) I1 T Cl1 J1 ND RI) as DS.
+      cbv zeta in DS. destruct DS as (I2 & T2 & Cl2 & J2).
+      cbn [fst]. apply TAIL; [split; [exact I2|split; [exact Cl2|exact J2]]|exact T2].
+    + (* NOJOBS: reports ignored *)
+      cbn [fst]. apply TAIL; [|exact T]. split; [exact I1|]. split; [exact Cl1|].
+      destruct J1 as [Jl Js]. split.
+      * eapply JL_ext; [|exact Jl]. intros y _. split; [intros (v & [] & _)|intros []].
+      * eapply JS_ext; [|exact Js]. intros y. split; intros [].
+    + (* ERROR: abort *)
+      cbn [fst]. split; [|exact T]. split; [exact I1|]. split; [exact Cl1|].
+      destruct J1 as [Jl Js]. split.
+      * eapply JL_ext; [|exact Jl]. intros y _. split; [intros (v & [] & _)|intros []].
+      * eapply JS_ext; [|exact Js]. intros y. split; intros [].
+Qed.
+
+(** one iteration of monitor_study *)
+Lemma poll_spec d s : dry c = d -> Inv g s -> Thr c s -> J d none none s L0 -> valid_pin s p = true ->
+  qinv d (fst (poll c g s p)) /\ Thr c (fst (poll c g s p)).
+Proof.
+  intros Hd I T Jh V. unfold poll.
+  set (s0 := set_evs (set_subs s (psubs p)) []).
+  assert (Q0 : qinv d s0).
+  { split; [eapply Inv_fields; [| | | | | | |exact I]; reflexivity|]. split; [exact Logic.I|].
+    change (ledS s0) with L0. destruct Jh as [Jl Js]. split.
+    - eapply JL_frame; [| | | | |exact Jl]; auto; tauto.
+    - eapply JS_frame; [| |exact Js]; auto; tauto. }
+  destruct (cancel_req p).
+  - destruct (cancel_study_spec d s0 Q0) as [Q1 E1].
+    apply execute_ready_steps_spec; auto.
+  - apply execute_ready_steps_spec; auto.
+Qed.
+
+
+End PollSpec.
